@@ -197,8 +197,14 @@ class TestCaseMutation(MutationOperator):
                 # Also include the position after the last mutatable statement.
                 max_position += 1
 
+            # An insertion also inserts the statements that provide its arguments, so
+            # it may overshoot the maximum length; such an insertion is taken back.
+            backup = chromosome.test_case.clone()
             position = test_factory.insert_random_statement(chromosome.test_case, max_position)
             exponent += 1
+            if chromosome.size() > config.configuration.search_algorithm.chromosome_length:
+                chromosome.test_case = backup
+                break
             if 0 <= position < chromosome.size():
                 changed = True
         return changed
